@@ -149,10 +149,12 @@ func MapReduceVoid[T, U any](generate GenerateFunc[T], mapper MapperFunc[T, U],
 	reducer VoidReducerFunc[U], opts ...Option) error {
 	_, err := MapReduce(generate, mapper, func(input <-chan U, writer Writer[any], cancel func(error)) {
 		reducer(input, cancel)
+		// a void reducer has no output of its own: once all the mappers are done, write a
+		// placeholder, so that a run that completed is told apart from ErrReduceNoOutput (or an
+		// error wrapping it, e.g. the result of a nested MapReduce) that was passed to cancel
+		drain(input)
+		writer.Write(struct{}{})
 	}, opts...)
-	if errors.Is(err, ErrReduceNoOutput) {
-		return nil
-	}
 
 	return err
 }
